@@ -33,11 +33,22 @@ def encode_as_wav(base, code, bk_filename, turbo=False):
             + env.PAUSE
             + encode_data_bits(code, env)
             + (env.PAUSE if turbo else b"")
-            + encode_data_bits(struct.pack("<H", sum(code) % (2 ** 16 - 1)), env)
+            + encode_data_bits(struct.pack("<H", checksum(code)), env)
             + env.EOF
         ),
         env.sample_rate
     )
+
+
+def checksum(data):
+    # 16-bit sum with end-around carry, like BK-0010 monitor computes it. This differs from
+    # sum(data) % 65535 when the sum is a non-zero multiple of 65535: the result is 0xffff, not 0.
+    result = 0
+    for byte in data:
+        result += byte
+        if result > 0xffff:
+            result -= 0xffff
+    return result
 
 
 def encode_data_bits(data, env):
